@@ -956,6 +956,48 @@ def laws(rng, tier, ctx):
                         badlines = [merge_line(k, pairs) for k, pairs in hist] + [read_line(t, what)]
             if bad is not None:
                 yield Finding('violation', dict(tag='law-read-spec-floats', lines=badlines, atomic=True, ordered=True), bad)
+    # review v5: (a) bi_merge stamping by itself - bi_merge(store, plain series, asof=T), the first one into None - builds the very store that
+    # bi_merge(store, Bi(series, T)) builds (every other line of this module stamps with Bi first); (b) a row labelled NaT: NaT is no observation date
+    # (outside the quantifier), groupby drops the label in bi_merge and in bi_read - silently.  Decision: declared outside, and what the property says
+    # about the DATES is checked in its presence: every read is the fold of the publication log without the NaT rows, no row for NaT is returned.
+    for nd in (3, 5, 25):
+        for n in range(max(3, m // 3)):
+            hist = gen_history(rng, nd, rng.choice([2, 3, 4, 5, 6]), True, nonempty_start=True)
+            lines = [merge_line(k, pairs) for k, pairs in hist]
+            mk = lambda pairs: pd.Series([np.nan if v is None else float(v) for _, v in pairs], index=pd.DatetimeIndex([date(i) for i, _ in pairs]), dtype=float)
+            ref = None
+            for k, pairs in hist:
+                ref = bi_merge(ref, Bi(mk(pairs), stamp(2 * k)))
+            if n % 2 == 0:
+                store = None
+                for k, pairs in hist:
+                    store = bi_merge(store, mk(pairs), asof=stamp(2 * k))
+                count += 1
+                if _dump(store) != _dump(ref):
+                    yield Finding('violation', dict(tag='law-merge-asof', lines=lines + [read_line(None, -1)], atomic=True, ordered=True),
+                                  'bi_merge(store, series, asof=stamp) built %s but bi_merge(store, Bi(series, stamp)) built %s' % (_dump(store), _dump(ref)))
+                continue
+            store, bad, where = None, None, []
+            for k, pairs in hist:
+                ts, vs = [date(i) for i, _ in pairs], [np.nan if v is None else float(v) for _, v in pairs]
+                if rng.random() < 0.6:
+                    p = rng.randrange(len(ts) + 1)
+                    ts.insert(p, pd.NaT)
+                    vs.insert(p, rng.choice([np.nan, 1.0, 2.0, 7.0]))
+                    where.append((k, p, vs[p]))
+                store = bi_merge(store, Bi(pd.Series(vs, index=pd.DatetimeIndex(ts), dtype=float), stamp(2 * k)))
+            for t in read_times(hist):
+                for what, first in ((-1, False), (0, True)):
+                    count += 1
+                    r = bi_read(store, None if t is None else stamp(t), what)
+                    got = {(None if x is pd.NaT else int((pd.Timestamp(x).to_pydatetime() - D0) // DAY)): (None if v != v else float(v)) for x, v in zip(r.index, r.values)}
+                    want = py_spec(hist, t, first)
+                    if (got != want or len(r) != len(want)) and bad is None:
+                        bad = ('with rows labelled NaT (stamp number, position, value: %s) added to the versions of the lines, bi_read(asof=%s, what=%d) = %s '
+                               'but the publication log of the dates gives %s' % (where, t, what, got, want))
+                        badlines = lines + [read_line(t, what)]
+            if bad is not None:
+                yield Finding('violation', dict(tag='law-nat-label', lines=badlines, atomic=True, ordered=True), bad)
     # frames, column by column (theorem frame_read_last_columns): when per date every version carries a new stamp, what='last'
     # is in every column the fold of that column's publications
     from pyg_base._bitemporal import bi_read
